@@ -317,7 +317,27 @@ def canon_model(r, rule_names, tagnames=None):
 
 
 EXN = ['KeyError', 'FailedRef', 'IndexError', 'ValueError', 'TypeError', 'AttributeError', 'RuntimeError',
-       'AssertionError', 'StopIteration', 'ZeroDivisionError']
+       'AssertionError', 'StopIteration', 'ZeroDivisionError',
+       # tatsu's own exception classes that are NOT parse failures: raised by an action they must reach the caller like any other
+       'ParseError', 'ParseException', 'GrammarError', 'TatSuException']
+
+
+def exn_class(i: int):
+    import builtins
+    import tatsu.exceptions
+    name = EXN[i]
+    return getattr(builtins, name, None) or getattr(tatsu.exceptions, name, RuntimeError)
+
+
+def value_size(v) -> int:
+    """number of leaves (mirrors Semantics.v vsize): through lists, tuples, dict values and tags"""
+    if isinstance(v, dict):
+        return sum(value_size(x) for k, x in v.items() if k not in ('parseinfo', '__parseinfo__'))
+    if isinstance(v, (list, tuple)):
+        if isinstance(v, tuple) and len(v) == 3 and v[0] == '$tag':
+            return value_size(v[2])
+        return sum(value_size(x) for x in v)
+    return 1
 
 
 def make_semantics(spec, rule_names):
@@ -338,13 +358,17 @@ def make_semantics(spec, rule_names):
                 return ('$tag', rname, ast)
             if k == 'wrap':
                 return [ast]
+            if k == 'failsize':
+                if value_size(ast) >= kindspec[1]:
+                    raise FailedSemantics('too big')
+                return ast
             if k == 'failif':
                 if ast == kindspec[1] and isinstance(ast, str):
                     raise FailedSemantics('no')
                 return ast
             if k == 'raiseif':
                 if ast == kindspec[1] and isinstance(ast, str):
-                    raise getattr(__import__('builtins'), EXN[kindspec[2]], RuntimeError)(f'boom {rname}')
+                    raise exn_class(kindspec[2])(f'boom {rname}')
                 return ast
             if k == 'const':
                 return kindspec[1]
@@ -374,7 +398,7 @@ def make_semantics(spec, rule_names):
                 return ast
             if k == 'raiseif':
                 if ast == default[1] and isinstance(ast, str):
-                    raise getattr(__import__('builtins'), EXN[default[2]], RuntimeError)('boom')
+                    raise exn_class(default[2])('boom')
                 return ast
             if k == 'const':
                 return default[1]
@@ -422,6 +446,8 @@ def sem_sx(spec, names) -> str:
             return f'(raiseif {sx(k[1])} {k[2]})'
         if k[0] == 'const':
             return f'(const {val_sx(k[1])})'
+        if k[0] == 'failsize':
+            return f'(failsize {int(k[1])})'
         raise ValueError(k)
     return '(sem ' + one(default) + ''.join(f' ({names[r]} {one(methods[m])})' for r, m in res.items() if m not in (None, '_default')) + ')'
 
